@@ -243,6 +243,7 @@ type poolDef struct {
 	paths    []string
 	hosts    []string
 	k        int
+	opts     []int // slash options explored per pattern
 }
 
 func pools(quick bool) []poolDef {
@@ -254,10 +255,10 @@ func pools(quick bool) []poolDef {
 		k = 2
 	}
 	ps := []poolDef{
-		{"flat", flatQ, paths3, []string{""}, k},
+		{"flat", flatQ, paths3, []string{""}, k, nil},
 	}
 	mid := rsx.GenPatterns([]string{"a", "a{}", "a*{}", "*{}"}, 2, true, "")
-	ps = append(ps, poolDef{"mid", mid, append(rsx.GenPaths([]string{"a", "ab", "aa", "b"}, 3), unclean...), []string{""}, k})
+	ps = append(ps, poolDef{"mid", mid, append(rsx.GenPaths([]string{"a", "ab", "aa", "b"}, 3), unclean...), []string{""}, k, nil})
 	var hostPats []string
 	for _, h := range []string{"a.b", "{h}.b", "a.{t}"} {
 		for _, p := range []string{"/", "/a", "/a/", "/{p0}", "/{p0}/", "/*{c0}", "/*{c0}/"} {
@@ -265,10 +266,17 @@ func pools(quick bool) []poolDef {
 		}
 	}
 	hostPats = append(hostPats, "/", "/a", "/a/", "/{p0}", "/{p0}/", "/*{c0}", "/a/b", "/a/b/")
-	ps = append(ps, poolDef{"host", hostPats, rsx.GenPaths([]string{"a", "b"}, 2), []string{"", "a.b", "x.b", "a.b:80", "c.d"}, k})
+	ps = append(ps, poolDef{"host", hostPats, rsx.GenPaths([]string{"a", "b"}, 2), []string{"", "a.b", "x.b", "a.b:80", "c.d"}, k, nil})
+	// depth-3 patterns: a backtracked walk can meet a second trailing-slash candidate below a parameter
+	deep := rsx.GenPatterns([]string{"a", "{}"}, 3, true, "")
+	if quick {
+		ps = append(ps, poolDef{name: "deep", patterns: deep, paths: rsx.GenPaths([]string{"a", "b"}, 3), hosts: []string{""}, k: 3, opts: []int{rsx.SlashNone}})
+	} else {
+		ps = append(ps, poolDef{name: "deep", patterns: deep, paths: rsx.GenPaths([]string{"a", "b"}, 3), hosts: []string{""}, k: 3})
+	}
 	if !quick {
 		core := append([]string{"/"}, rsx.GenPatterns([]string{"a", "{}", "*{}"}, 2, true, "")...)
-		ps = append(ps, poolDef{"core4", core, rsx.GenPaths([]string{"a", "b"}, 3), []string{""}, 4})
+		ps = append(ps, poolDef{"core4", core, rsx.GenPaths([]string{"a", "b"}, 3), []string{""}, 4, nil})
 	}
 	return ps
 }
@@ -276,12 +284,15 @@ func pools(quick bool) []poolDef {
 func runPool(c *mc.Ctx, r *mc.Result, pd poolDef) {
 	// specs: pattern x {none, ignore, redirect}
 	var specs []rsx.RouteSpec
+	if pd.opts == nil {
+		pd.opts = []int{rsx.SlashNone, rsx.SlashIgnore, rsx.SlashRedirect}
+	}
 	for _, p := range pd.patterns {
-		for s := 0; s < 3; s++ {
+		for _, s := range pd.opts {
 			specs = append(specs, rsx.RouteSpec{Method: "GET", Pattern: p, Slash: s})
 		}
 	}
-	r.Bounds["pool."+pd.name] = fmt.Sprintf("%d patterns x 3 slash options, subsets<=%d, %d paths x %d hosts x methods %v", len(pd.patterns), pd.k, len(pd.paths), len(pd.hosts), methods)
+	r.Bounds["pool."+pd.name] = fmt.Sprintf("%d patterns x %d slash options, subsets<=%d, %d paths x %d hosts x methods %v", len(pd.patterns), len(pd.opts), pd.k, len(pd.paths), len(pd.hosts), methods)
 	stopped := false
 	rsx.Subsets(len(specs), pd.k, func(i int, idx []int) {
 		if !c.Mine(i) || stopped {
